@@ -200,4 +200,51 @@ theorem body_crash_iff (st : St) (t : Tok) (r : Req) : (body st t r).2.isCrash =
     | ok p => rw [hl] at h; exact h
   | other n => simp [body, safeBody, unsupportedFault, Out.isCrash]
 
+/-! ### well-formed tables -/
+
+theorem findSub_isSome_iff (st : St) (x : Nat) : (findSub st x).isSome = true ↔ ∃ s ∈ st.subs, s.id = x := by
+  unfold findSub
+  rw [List.find?_isSome]
+  constructor
+  · rintro ⟨s, hs, h⟩; exact ⟨s, hs, by simpa using h⟩
+  · rintro ⟨s, hs, h⟩; exact ⟨s, hs, by simpa using h⟩
+
+theorem findSub_mem (st : St) (x : Nat) (s : Sub) (h : findSub st x = some s) : s ∈ st.subs ∧ s.id = x := by
+  unfold findSub at h
+  exact ⟨List.mem_of_find?_eq_some h, by simpa using List.find?_some h⟩
+
+theorem findItem_mem (st : St) (x : Nat) (it : Item) (h : findItem st x = some it) : it ∈ st.items := by
+  unfold findItem at h
+  exact List.mem_of_find?_eq_some h
+
+theorem subOwned_of_wf (st : St) (hw : ownersSet st = true) (x : Nat) (s : Sub) (h : findSub st x = some s) :
+    subOwned st x = true := by
+  unfold subOwned
+  rw [h]
+  exact List.all_eq_true.mp hw s (findSub_mem st x s h).1
+
+theorem putSub_exists (subs : List Sub) (n : Sub) (x : Nat) (h : ∃ s ∈ subs, s.id = x) :
+    ∃ s ∈ putSub subs n, s.id = x := by
+  obtain ⟨s, hs, hx⟩ := h
+  unfold putSub
+  by_cases hn : n.id = x
+  · exact ⟨n, by simp, hn⟩
+  · refine ⟨s, ?_, hx⟩
+    rw [List.mem_append]
+    left
+    rw [List.mem_filter]
+    refine ⟨hs, ?_⟩
+    simp only [bne_iff_ne, ne_eq]
+    intro he
+    exact hn (by rw [← he, hx])
+
+theorem newItems_sub (next sub n : Nat) (it : Item) (h : it ∈ newItems next sub n) : it.sub = sub := by
+  induction n generalizing next with
+  | zero => simp [newItems] at h
+  | succ k ih =>
+    simp only [newItems, List.mem_cons] at h
+    rcases h with h | h
+    · rw [h]
+    · exact ih (next + 1) h
+
 end Opcua.Srv
